@@ -504,7 +504,7 @@ def rule_balance(ctx):
     ctx._own_counts = counts
     for k, fl in floors.items():
         if counts[k] < fl:
-            raise AnalysisError("OWN-BALANCE: found %d `%s` sites, expected at least %d (anchor lost?)" % (counts[k], k, fl))
+            r.floor_failures.append("OWN-BALANCE: found %d `%s` sites, expected at least %d (anchor lost?)" % (counts[k], k, fl))
     r.require(nfun, 30, "functions carrying ownership events")
     return r
 
